@@ -401,6 +401,21 @@ def prepare_check(ctx: Ctx, labels, stored, pairs) -> bool:
                 ctx.fail("prepare:first-array-is-not-first-minimum", f"prepare_connection_attempt({pair}): the first "
                          f"array returned is not minimum {pair[0]}", rep)
                 return False
+            # the two arrays are returned ALIGNED, i.e. in one frame: no translation can bring them closer (their centroids
+            # coincide, the similarity is unweighted here), and a rigid like-atom-permuted copy comes back on top of the
+            # reference
+            c1 = np.asarray(m1, dtype=float).reshape(-1, 3).mean(axis=0)
+            c2 = np.asarray(m2, dtype=float).reshape(-1, 3).mean(axis=0)
+            if float(np.max(np.abs(c1 - c2))) > 1e-6:
+                ctx.fail("prepare:arrays-in-different-frames", f"prepare_connection_attempt({pair}): the two arrays are returned "
+                         f"in different frames — their centroids differ by {np.round(c1 - c2, 6).tolist()}, so a pure translation "
+                         "would bring them closer", rep)
+                return False
+            if set(pair) == {0, 2} and float(np.linalg.norm(np.asarray(m1, dtype=float) - np.asarray(m2, dtype=float))) > 1e-4:
+                ctx.fail("prepare:copy-not-on-top-of-reference", f"prepare_connection_attempt({pair}): minimum 2 is a rotated, "
+                         f"translated, relabelled copy of minimum 0 but comes back "
+                         f"{float(np.linalg.norm(np.asarray(m1) - np.asarray(m2))):.3g} away from it", rep)
+                return False
             if sorted(pm) != list(range(n)) or any(labels[pm[i]] != labels[i] for i in range(n)) or \
                     np.max(np.abs(dmat(m2) - dmat(stored[pair[1]].reshape(-1, 3)[pm]))) > tol:
                 ctx.fail("prepare:second-array-is-not-image-of-second-minimum", f"prepare_connection_attempt({pair}): "
